@@ -134,6 +134,31 @@ def oracle_differential(case):
             out.bad(f"group-warnings-differ:{case['side']}:" + "+".join(diff),
                     f"{case['pairing']}: alone({case['alone']}) {case['text_alone']!r} -> {dict(aw)}; group "
                     f"{case['text_group']!r} -> {dict(gw)}")
+    # expanding definitions under a prefix gives the prefixed form of what the schema alone gives
+    if case["defs_alone"] and not case["mutation"] and "Def/" in case["text_alone"]:
+        from hed.models import HedString
+        from hed.models.definition_dict import DefinitionDict
+        try:
+            ha = HedString(case["text_alone"], alone, def_dict=DefinitionDict(case["defs_alone"], alone))
+            hg = HedString(case["text_group"], group, def_dict=DefinitionDict(case["defs_group"], group))
+            ha.expand_defs()
+            hg.expand_defs()
+            pp_ = PAIRINGS[case["pairing"]][3] if case["side"] == "prefixed" else ""
+            want = gen_hed_text_prefix(str(ha), pp_).replace(" ", "")
+            if str(hg).replace(" ", "") != want:
+                out.bad(f"expansion-differs-under-prefix:{case['side']}", f"{case['pairing']}: {str(hg)!r} expected "
+                                                                          f"{want!r}")
+            ha.shrink_defs()
+            hg.shrink_defs()
+            want = gen_hed_text_prefix(str(ha), pp_).replace(" ", "")
+            if str(hg).replace(" ", "") != want:
+                out.bad(f"shrinking-differs-under-prefix:{case['side']}", f"{case['pairing']}: {str(hg)!r} expected "
+                                                                          f"{want!r}")
+            out.classes += ("expanded",)
+        except Exception as exc:  # noqa
+            from vlib.core import crash_signature
+            out.bad(crash_signature(exc, "expansion-raises") or f"expansion-raises:{type(exc).__name__}",
+                    f"{case['pairing']}: {case['text_group']!r}: {exc!r}")
     if a != g:
         diff = sorted(set((a - g) | (g - a)))
         out.bad(f"group-verdict-differs:{case['side']}:" + "+".join(diff),
